@@ -290,7 +290,7 @@ func scenarioKeyAxisMappingSwitch(c *w1Case, r *simrt.Rng) {
 	if r.Chance(0.5) {
 		c.d.Mappings[1].Analog = nil // or not mapped at all
 	}
-	c.d.Mapping = "M0"
+	c.d.Mapping = c.d.Mappings[0].Name
 	up := c.d.Actions[0]
 	dir := int32(1)
 	if r.Chance(0.5) {
@@ -540,8 +540,46 @@ func genC04Hats(c *w1Case, r *simrt.Rng) {
 		}
 		return h
 	}
+	keyOf := func(action string) *model.ActionKey {
+		for i := range c.d.Actions {
+			if c.d.Actions[i].Action == action {
+				return &c.d.Actions[i]
+			}
+		}
+		return nil
+	}
 	for i := 0; i < n; i++ {
 		switch {
+		case mixed && len(g.actDown) == 0 && r.Chance(0.12):
+			// directed: an action held by its key while a hat that triggers the same action moves through its empty
+			// direction and back, then the other key of the pair
+			for _, a := range axes {
+				if (a.Action == nil) == (a.ActionNeg == nil) || pos[a.Code] != 0 {
+					continue
+				}
+				x := hatAction(a, 1) + hatAction(a, -1)
+				empty := int32(1)
+				if hatAction(a, 1) != "" {
+					empty = -1
+				}
+				kx, kp := keyOf(x), keyOf(partnerOf(x))
+				if kx == nil || kp == nil || len(hatHeld()) != 0 {
+					continue
+				}
+				if g.pressAction(*kx) {
+					g.out = append(g.out, model.Event{Kind: "abs", Code: a.Code, Value: empty})
+					if r.Chance(0.5) {
+						g.out = append(g.out, model.Event{Kind: "abs", Code: a.Code, Value: 0})
+					} else {
+						pos[a.Code] = empty
+					}
+					if g.pressAction(*kp) {
+						g.release(kp.Code)
+					}
+					g.release(kx.Code)
+				}
+				break
+			}
 		case r.Chance(0.55):
 			a := axes[r.Intn(len(axes))]
 			v := []int32{-1, 0, 1}[r.Intn(3)]
@@ -588,6 +626,9 @@ func genC04(c *w1Case, r *simrt.Rng, thorough bool) {
 	}
 	o := genOpts{nKeys: [2]int{3, 10}, nMaps: [2]int{1, 3}, notePool: intsRange(0, 127), offsets: true, actions: transposeActions, exitLen: -1, defaults: true,
 		unmapProb: 0.2, remapProb: 0.5, handlers: 1}
+	if r.Chance(0.2) {
+		o.dupActions = r.Range(1, 2) // the same action on two keys: each press is a press
+	}
 	c.d = baseDesc(r, o)
 	c.state = true
 	g := newScriptGen(r, c.d)
